@@ -255,6 +255,7 @@ class _MapLayer(object):
 
     def get_map(self, query):
         self.log.append(('map', self.name))
+        self.last_query = (tuple(query.bbox), tuple(query.size))
         return types.SimpleNamespace(opacity=None, name=self.name)
 
     def get_info(self, query):
@@ -298,12 +299,14 @@ class WMSAuth(Harness):
 
             def merge(self, size=None, image_opts=None, bbox=None, bbox_srs=None, coverage=None):
                 self.final_coverage = coverage
+                self.georef = (tuple(bbox), tuple(size))
                 return types.SimpleNamespace(as_buffer=lambda o=None: b'IMG', cacheable=True, georef=None)
         w.__dict__['LayerMerger'] = Merger
         w.__dict__['GeoReference'] = lambda **kw: None
         w.__dict__['combine_docs'] = lambda infos, transformer=None: ('|'.join(infos), 'text')
         w.__dict__['mimetype_from_infotype'] = lambda v, t: 'text/plain'
-        return dict(L=L, w=w, root=root, log=log, merged=merged, ly=L.mods['mapproxy.layer'])
+        w.__dict__['SubImageSource'] = lambda result, size=None, offset=None, image_opts=None: result
+        return dict(L=L, w=w, root=root, log=log, merged=merged, ly=L.mods['mapproxy.layer'], srcs=srcs)
 
     @classmethod
     def inputs(cls, ctx, cfg):
@@ -345,6 +348,10 @@ class WMSAuth(Harness):
         s = w.WMSServer(ctx['root'], {}, ['EPSG:4326'], {'image/png': types.SimpleNamespace(copy=lambda: types.SimpleNamespace(format=types.SimpleNamespace(mime_type='image/png')))})
         s.check_map_request = lambda r: None
         s.check_featureinfo_request = lambda r: None
+        if cfg.get('srs_extent'):
+            # the service clips requests to a configured extent of the SRS: layers are then rendered for a sub-rectangle
+            from mapproxy.srs import SRS
+            s.srs_extents = {'EPSG:4326': ly.MapExtent((0, 0, 5, 5), SRS(4326))}
 
         class P(dict):
             pass
@@ -380,6 +387,9 @@ class WMSAuth(Harness):
                 return False
             mg = merged[-1]
             ok = [n for n, c in mg.added] == want
+            # the clip works on ground coordinates: the merger must be told the rectangle the layers were rendered for
+            for n in want:
+                ok = ok and ctx['srcs'][n].last_query == mg.georef
             for n, c in mg.added:
                 lim = partial and n == 'a' and limit_a
                 ok = ok and ((c is not None and c.tag == 'a') if lim else c is None)
@@ -434,6 +444,10 @@ CANARIES = [
         "        if coverage and not coverage.contains(query.coord, query.srs):\n            infos = []\n        else:\n            info_layers = []",
         "        if False:\n            infos = []\n        else:\n            info_layers = []")]},
      dict(feature='featureinfo', request='a')),
+    ('wms: clip placed with the unclipped request rectangle', 'WMSAuth', {'mapproxy.service.wms': [(
+        "                              bbox=query.bbox, bbox_srs=params.srs, coverage=coverage)",
+        "                              bbox=params.bbox, bbox_srs=params.srs, coverage=coverage)")]},
+     dict(feature='map', request='g+c', srs_extent=True)),
     ('wms: map permission also opens feature info', 'WMSAuth', {'mapproxy.service.wms': [(
         "                    if permissions.get(feature, False) is True:", "                    if permissions.get('map', False) is True or permissions.get(feature, False) is True:")]},
      dict(feature='featureinfo', request='a')),
@@ -448,9 +462,10 @@ def obligations(tier, seed):
     for feature in ('map', 'featureinfo'):
         for r in reqs:
             specs.append(spec(MOD, 'WMSAuth', 'wms-%s/request-%s' % (feature, r), cfg=dict(feature=feature, request=r), cost=40))
+    specs.append(spec(MOD, 'WMSAuth', 'wms-map/request-g+c/limited-by-srs-extent', cfg=dict(feature='map', request='g+c', srs_extent=True), cost=40))
     specs.append(spec(MOD, 'TileAuth', 'twin/TileAuth', kind='witness', cfg=dict(service='tms')))
     specs.append(spec(MOD, 'WMSAuth', 'twin/WMSAuth', kind='witness', cfg=dict(feature='map', request='g')))
-    for label, h, patches, c in (CANARIES if tier == 'thorough' else CANARIES[:2] + CANARIES[4:8]):
+    for label, h, patches, c in (CANARIES if tier == 'thorough' else CANARIES[:2] + CANARIES[4:9]):
         specs.append(spec(MOD, h, 'canary/' + label, kind='canary', cfg=c, patches=patches, cost=20))
     return specs
 
